@@ -64,6 +64,8 @@ type caseT struct {
 	Bound  bool
 	// Plain: the bound struct has no Validate() method (same fields, declared as another type)
 	Plain bool `json:",omitempty"`
+	// Tag: the Config is built WithTag("cfg") and the bound struct carries its keys under that tag
+	Tag bool `json:",omitempty"`
 	// Stress: after the history, a key is toggled by 300 Loads on a small Config of its own while two
 	// goroutines hammer the …Or getters; a result that is neither the value nor the default is an anomaly
 	Stress bool `json:",omitempty"`
@@ -89,9 +91,9 @@ type Bound struct {
 	Tags   []string          `config:"tags"`
 	Labels map[string]string `config:"labels"`
 	Peer   *Server           `config:"peer"`
-	Reject bool              `config:"reject"`
+	Reject bool              `config:"deny"`
 	Since  time.Time         `config:"since"`
-	Wait   time.Duration     `config:"wait"`
+	Wait   time.Duration     `config:"idle"`
 	Meta   Meta              `config:"meta"`
 }
 
@@ -101,6 +103,26 @@ type Meta struct {
 	hidden int
 	Skip   string `config:"-"`
 }
+
+// cfgBound is Bound with the top-level tags under another tag name (WithTag("cfg")) and keys that
+// differ from the field names, so that a decoder that forgets the tag name misses them. Struct
+// conversion ignores tags, so both views share one value.
+type cfgBound struct {
+	Name   string `cfg:"name"`
+	Debug  bool   `cfg:"debug"`
+	Server Server `cfg:"server"`
+	Emb    `cfg:",squash"`
+	Rate   float64           `cfg:"rate" default:"1.5"`
+	Tags   []string          `cfg:"tags"`
+	Labels map[string]string `cfg:"labels"`
+	Peer   *Server           `cfg:"peer"`
+	Reject bool              `cfg:"deny"`
+	Since  time.Time         `cfg:"since"`
+	Wait   time.Duration     `cfg:"idle"`
+	Meta   Meta              `cfg:"meta"`
+}
+
+func (b *cfgBound) Validate() error { return (*Bound)(b).Validate() }
 
 // plainBound has Bound's fields and none of its methods.
 type plainBound Bound
@@ -134,9 +156,9 @@ var boundFields = []fieldT{
 	{"tags", []string{"tags"}, func(b *Bound) any { return b.Tags }},
 	{"labels", []string{"labels"}, func(b *Bound) any { return b.Labels }},
 	{"peer", []string{"peer"}, func(b *Bound) any { return b.Peer }},
-	{"reject", []string{"reject"}, func(b *Bound) any { return b.Reject }},
+	{"reject", []string{"deny"}, func(b *Bound) any { return b.Reject }},
 	{"since", []string{"since"}, func(b *Bound) any { return b.Since.UTC().Format(time.RFC3339) }},
-	{"wait", []string{"wait"}, func(b *Bound) any { return b.Wait.String() }},
+	{"wait", []string{"idle"}, func(b *Bound) any { return b.Wait.String() }},
 	{"meta.owner", []string{"meta", "owner"}, func(b *Bound) any { return b.Meta.Owner }},
 	{"meta.skip", []string{"meta", "-"}, func(b *Bound) any { return b.Meta.Skip + strconv.Itoa(b.Meta.hidden) }},
 }
@@ -361,7 +383,9 @@ func (r *runT) build(c *caseT, withHooks bool) error {
 	}
 	if c.Bound {
 		r.bound = &Bound{}
-		if c.Plain {
+		if c.Tag {
+			opts = append(opts, config.WithTag("cfg"), config.WithBinding((*cfgBound)(r.bound)))
+		} else if c.Plain {
 			opts = append(opts, config.WithBinding((*plainBound)(r.bound)))
 		} else {
 			opts = append(opts, config.WithBinding(r.bound))
@@ -949,7 +973,7 @@ func emit(id string, c caseT, st *hx.Stats) string {
 		}
 		for _, s := range r.cur {
 			if s.M != nil {
-				for _, k := range []string{"schemafail", "vfail0", "vfail1", "vpanic0", "vpanic1", "reject"} {
+				for _, k := range []string{"schemafail", "vfail0", "vfail1", "vpanic0", "vpanic1", "deny"} {
 					if isTrue(s.M, k) {
 						faults++
 					}
@@ -990,6 +1014,9 @@ func emit(id string, c caseT, st *hx.Stats) string {
 		}
 		if c.Plain {
 			st.Count("binding_without_validate_method")
+		}
+		if c.Tag {
+			st.Count("binding_with_custom_tag_name")
 		}
 		st.Case(in[len(id):], overlaps > 0 || faults > 0 || vanished > 0)
 		st.Count("loads_" + strconv.Itoa(len(c.Loads)))
@@ -1123,7 +1150,7 @@ func genBindable(r *hx.Rand, m map[string]any) {
 		put("since", hx.Pick(r, []any{"2024-01-02T03:04:05Z", "2031-12-31T23:59:59Z"}))
 	}
 	if r.Chance(1, 5) {
-		put("wait", hx.Pick(r, []any{"1500ms", "2h", 0}))
+		put("idle", hx.Pick(r, []any{"1500ms", "2h", 0, "soon"}))
 	}
 	if r.Chance(1, 5) {
 		put("meta", hx.Pick(r, []any{map[string]any{"owner": "me"}, map[string]any{"Owner": ""}, map[string]any{}}))
@@ -1136,6 +1163,7 @@ func genCase(r *hx.Rand, tier string) caseT {
 	c.NV = r.Intn(3)
 	c.Bound = r.Chance(2, 3)
 	c.Plain = c.Bound && r.Chance(1, 4)
+	c.Tag = c.Bound && !c.Plain && r.Chance(1, 5)
 	c.Stress = r.Chance(1, 60)
 	nsrc := r.Range(1, 4)
 	kinds := make([]string, nsrc)
@@ -1232,7 +1260,7 @@ func genCase(r *hx.Rand, tier string) caseT {
 					}
 				}
 				if c.Bound && r.Chance(1, 12) {
-					set("reject", r.Chance(3, 4))
+					set("deny", r.Chance(3, 4))
 				}
 				if c.Bound && r.Chance(1, 25) {
 					set("server", hx.Pick(r, []any{"not-a-map", map[string]any{"port": "abc"}}))
@@ -1268,7 +1296,7 @@ func genCase(r *hx.Rand, tier string) caseT {
 						genBindable(r, s.M)
 					}
 					if c.Bound && r.Chance(1, 8) {
-						s.M["reject"] = true
+						s.M["deny"] = true
 					}
 					if c.NV > 0 && r.Chance(1, 8) {
 						s.M["vfail0"] = true
@@ -1385,7 +1413,7 @@ func fixedCases() []caseT {
 			one(m("name", "x", "schemafail", true)),
 			one(m("name", "x", "vfail1", true)),
 			one(m("name", "x", "vpanic0", true)),
-			one(m("name", "x", "reject", true)),
+			one(m("name", "x", "deny", true)),
 			one(m("name", "x", "server", "not-a-map")),
 			one(m("name", "second")),
 		}},
@@ -1407,8 +1435,15 @@ func fixedCases() []caseT {
 		}},
 		// a time key disappears between two Loads
 		{Bound: true, Keys: []string{"since"}, Loads: []loadT{
-			one(m("since", "2024-01-02T03:04:05Z", "wait", "2h", "meta", m("owner", "me"))),
+			one(m("since", "2024-01-02T03:04:05Z", "idle", "2h", "meta", m("owner", "me"))),
 			one(m("name", "x")),
+		}},
+		// custom tag name: a reload that Validate() rejects and one that cannot be decoded leave the struct alone
+		{Bound: true, Tag: true, Keys: []string{"name"}, Loads: []loadT{
+			one(m("name", "first", "idle", "2h", "rate", 2)),
+			one(m("name", "second", "deny", true)),
+			one(m("name", "third", "idle", "soon")),
+			one(m("name", "fourth")),
 		}},
 		// the context is cancelled while the last source is read: too late, the Load goes through
 		{Bound: true, Keys: []string{"name"}, Loads: []loadT{
@@ -1424,13 +1459,13 @@ func fixedCases() []caseT {
 		{Bound: true, Keys: []string{"name"}, Loads: []loadT{
 			one(m("name", "first")),
 			{Srcs: []srcT{{Kind: "map", M: m("name", "a-wins", "level", "info")}}, Race: []srcT{{Kind: "map", M: m("name", "b-wins", "debug", true)}}},
-			{Srcs: []srcT{{Kind: "map", M: m("name", "a2")}}, Race: []srcT{{Kind: "map", M: m("name", "b2", "reject", true)}}},
+			{Srcs: []srcT{{Kind: "map", M: m("name", "a2")}}, Race: []srcT{{Kind: "map", M: m("name", "b2", "deny", true)}}},
 		}},
 		// readers at every placement around a successful and a failing Load
 		{NV: 1, Bound: true, Keys: []string{"name"}, Loads: []loadT{
 			one(m("name", "first")),
 			{Srcs: []srcT{{Kind: "map", M: m("name", "second")}}, Readers: []readerT{{0}, {1}, {2}, {3}, {4}, {9}}},
-			{Srcs: []srcT{{Kind: "map", M: m("name", "third", "reject", true)}}, Readers: []readerT{{0}, {1}, {2}, {3}, {4}, {9}}},
+			{Srcs: []srcT{{Kind: "map", M: m("name", "third", "deny", true)}}, Readers: []readerT{{0}, {1}, {2}, {3}, {4}, {9}}},
 		}},
 	}
 }
